@@ -137,8 +137,14 @@ class ErrorObject:
 
     @classmethod
     def from_exception(cls, exception: Exception) -> ErrorObject:
+        try:
+            message = str(exception)
+        except Exception:  # noqa: BLE001
+            # a user exception class with a broken __str__ (e.g. returning None) must still be
+            # recordable; same wording as the traceback module
+            message = "<exception str() failed>"
         return cls(
-            message=str(exception),
+            message=message,
             type=type(exception).__name__,
             data=None,
             stack_trace=None,
